@@ -201,10 +201,32 @@ def run(ctx, n_files=None):
         msg = ms.parse_file(gtirb, ms.save(ir0))
         cases = [("unmodified", "none", msg)]
         for what, fclass, m2 in fs.structural_faults(gtirb, msg, rng, True):
-            if fclass in ("bad-reference", "duplicate-uuid"):
+            if fclass in ("bad-reference", "duplicate-uuid"):   # noqa
                 cases.append((what, fclass, m2))
         if not ctx.thorough() and len(cases) > 160:
             cases = cases[:1] + rng.sample(cases[1:], 159)
+        # several duplications at once (a UUID occurring three times, two
+        # independent pairs): children are decoded and attached one by one,
+        # so a re-used node moves before its next occurrence is decoded
+        fields = fs.uuid_fields(msg)
+        nodes = [i for i, f in enumerate(fields) if f[3] == "node"]
+        if len(nodes) >= 3:
+            for _ in range(ctx.scale(60, 600)):
+                c = fs.clone(msg)
+                fa = fs.uuid_fields(c)
+                desc = []
+                if rng.random() < 0.6:
+                    a, b, d = rng.sample(nodes, 3)
+                    plan = [(a, b), (a, d)]
+                else:
+                    plan = [tuple(rng.sample(nodes, 2))
+                            for _ in range(rng.choice([2, 2, 3]))]
+                for a, b in plan:
+                    setattr(fa[b][1], fa[b][2],
+                            bytes(getattr(fa[a][1], fa[a][2])))
+                    desc.append("%s := uuid of %s" % (fields[b][0],
+                                                      fields[a][0]))
+                cases.append(("; ".join(desc), "multi-duplicate", c))
         for what, fclass, m2 in cases:
             sk = skeleton(m2)
             if sk is None:
